@@ -54,3 +54,33 @@ package jschema
 //@ interface Document.NextLexeme(self)
 //@   maypanic
 //@   modifies *
+
+// C10: "clone agreement": the root package classifies numerals exactly like
+// internal/json.GuessData (same predicates numIsInt / numIsFloat)
+//@ func (*typeGuesser).parseNumber()
+//@   props C10
+//@   requires tgWF(g)
+//@   nopanic
+//@   modifies g.number
+//@   ensures tgWF(g) && (result1 == nil) == parseOK(g.data)
+//@   ensures result1 == nil ==> result0 == g.number && result0 != nil
+
+//@ func (*typeGuesser).isInteger()
+//@   props C10 C03
+//@   requires tgWF(g)
+//@   nopanic
+//@   modifies g.number
+//@   ensures tgWF(g) && result == numIsInt(g.data)
+//@   loop 0 invariant dot == (exists j {g.data[j]} :: 0 <= j && j <= rangeindex && g.data[j] == '.')
+//@   loop 0 invariant exp == (exists j {g.data[j]} :: 0 <= j && j <= rangeindex && (g.data[j] == 'e' || g.data[j] == 'E'))
+//@   loop 0 decreases len(g.data) - rangeindex
+
+//@ func (*typeGuesser).isFloat()
+//@   props C10 C03
+//@   requires tgWF(g)
+//@   nopanic
+//@   modifies g.number
+//@   ensures tgWF(g) && result == numIsFloat(g.data)
+//@   loop 0 invariant dot == (exists j {g.data[j]} :: 0 <= j && j <= rangeindex && g.data[j] == '.')
+//@   loop 0 invariant exp == (exists j {g.data[j]} :: 0 <= j && j <= rangeindex && (g.data[j] == 'e' || g.data[j] == 'E'))
+//@   loop 0 decreases len(g.data) - rangeindex
